@@ -10,56 +10,103 @@ ST = "tlx::SplayTree"
 
 
 # ------------------------------------------------------------------ LRU
+LIST_PURE = ("begin", "end", "cbegin", "cend", "rbegin", "rend", "size", "empty", "front", "back", "max_size")
+MAP_PURE = ("find", "end", "begin", "cend", "cbegin", "size", "empty", "count", "at", "max_size", "bucket_count", "load_factor")
+
+
 def lru_events(fn, lf):
-    """classify the effects on one path"""
+    """classify the effects on one path: every call on list_ / map_ anywhere in the executed expressions and
+    initialisers, in evaluation order; a member function of the list or the map that is not modelled makes the path
+    undecidable (closed world: `absent` then really means absent)"""
     out = []
     key = fn.params[0]["did"] if fn.params else None
     val = fn.params[1]["did"] if len(fn.params) > 1 else None
+    front_its = set()        # iterator locals known to denote the node just put at the front
 
-    def field_call(e, field, names):
-        c = match.call_named(e, names)
-        if c is not None and "callee" in e and c.get("member_call") and match.this_field(kids(c)[0]) == field:
-            return c
-        return None
+    def calls_in_order(e):
+        # children before parents = evaluation order of nested calls
+        res = []
+
+        def rec(n):
+            if n is None or n["k"] == "LambdaExpr":
+                return
+            for c in kids(n):
+                rec(c)
+            if "callee" in n and n.get("member_call") and kids(n):
+                f = match.this_field(kids(n)[0])
+                if f in ("list_", "map_"):
+                    res.append((f, n))
+        rec(e)
+        return res
+
+    def where_of(a):
+        to = match.call_named(match.strip_conv(a), ("begin", "end", "cbegin", "cend"))
+        if to is not None and "callee" in match.strip_conv(a) and match.this_field(kids(match.strip_conv(a))[0]) == "list_":
+            return to["callee"]["name"].lstrip("c")
+        return "?"
+
+    def handle(e, decl=None):
+        for f, c in calls_in_order(e):
+            name = c["callee"]["name"]
+            args = kids(c)[1:]
+            if f == "list_":
+                if name in LIST_PURE:
+                    if name in ("end", "cend") and decl is not None and strip_casts(kids(decl)[0]) is c:
+                        out.append(("list.end", decl["did"]))
+                    continue
+                detail = None
+                if name in ("insert", "emplace") and args:
+                    pos = where_of(args[0])
+                    if pos == "?":
+                        raise dtable.Undecidable("%s: list_.%s at a position that is not begin()/end()" % (fn.loc, name))
+                    name = "push_front" if pos == "begin" else "push_back"
+                    args = args[1:]
+                    if decl is not None:
+                        front_its.add(decl["did"])
+                if name in ("push_front", "emplace_front", "push_back", "emplace_back"):
+                    refs = [z["ref"]["id"] for a in args for z in ir.walk(a) if z["k"] == "DeclRefExpr"]
+                    detail = ("key" if key in refs else "") + ("+value" if val is not None and val in refs else "")
+                    if name == "emplace_back":
+                        name = "push_back"
+                elif name == "splice":
+                    detail = where_of(args[0]) if args else "?"
+                elif name not in ("erase", "pop_back", "pop_front", "clear", "swap"):
+                    raise dtable.Undecidable("%s: list_.%s() is not modelled" % (fn.loc, name))
+                out.append(("list." + name, detail))
+            else:
+                if name in MAP_PURE:
+                    if name == "find":
+                        out.append(("map.find", None))
+                    continue
+                detail = None
+                if name in ("insert", "emplace", "insert_or_assign", "emplace_hint"):
+                    lb = [z for a in args for z in ir.walk(a) if "callee" in z and z["callee"]["name"] in ("begin", "end", "rbegin", "cbegin")
+                          and z.get("member_call") and match.this_field(kids(z)[0]) == "list_"]
+                    its = [z for a in args for z in ir.walk(a) if z["k"] == "DeclRefExpr" and z["ref"]["id"] in front_its]
+                    detail = lb[0]["callee"]["name"].lstrip("c") if lb else ("begin" if its else "?")
+                    name = "insert"
+                elif name not in ("erase", "clear", "swap", "operator[]"):
+                    raise dtable.Undecidable("%s: map_.%s() is not modelled" % (fn.loc, name))
+                out.append(("map." + name, detail))
     for ev in lf["events"]:
         if ev[0] == "decl":
             v = ev[1]
-            if kids(v):
-                c = field_call(strip_casts(kids(v)[0]), "map_", ("find",))
-                if c:
-                    out.append(("map.find", None))
-                c = field_call(strip_casts(kids(v)[0]), "list_", ("end",))
-                if c:
-                    out.append(("list.end", v["did"]))
-                if any(z["k"] == "UnaryOperator" and z.get("op") == "*" for z in ir.walk(kids(v)[0])) or \
-                        any("callee" in z and z.get("op") == "*" for z in ir.walk(kids(v)[0])):
+            if kids(v) and kids(v)[0] is not None:
+                init = kids(v)[0]
+                # an iterator local initialised with list_.begin() right after the front insertion denotes that node
+                c0 = match.strip_conv(init)
+                if "callee" in (c0 or {}) and c0.get("member_call") and match.this_field(kids(c0)[0]) == "list_" and c0["callee"]["name"] in ("begin", "cbegin") \
+                        and any(a == "list.push_front" or a == "list.emplace_front" for a, _ in out):
+                    front_its.add(v["did"])
+                handle(init, v)
+                if any(z["k"] == "UnaryOperator" and z.get("op") == "*" for z in ir.walk(init)) or \
+                        any("callee" in z and z.get("op") == "*" for z in ir.walk(init)):
                     out.append(("read-last", None))
             continue
         if ev[0] != "expr":
             continue
         e = strip_casts(ev[1])
-        for name in ("erase", "push_front", "push_back", "pop_back", "pop_front", "splice", "clear", "emplace_front"):
-            c = field_call(e, "list_", (name,))
-            if c:
-                args = kids(c)[1:]
-                detail = None
-                if name in ("push_front", "emplace_front", "push_back"):
-                    refs = [z["ref"]["id"] for a in args for z in ir.walk(a) if z["k"] == "DeclRefExpr"]
-                    detail = ("key" if key in refs else "") + ("+value" if val is not None and val in refs else "")
-                if name == "splice":
-                    to = match.call_named(match.strip_conv(args[0]), ("begin", "end", "cbegin", "cend")) if args else None
-                    detail = to["callee"]["name"] if to else "?"
-                out.append(("list." + name, detail))
-        for name in ("erase", "insert", "emplace", "clear"):
-            c = field_call(e, "map_", (name,))
-            if c:
-                args = kids(c)[1:]
-                detail = None
-                if name in ("insert", "emplace"):
-                    lb = [z for a in args for z in ir.walk(a) if "callee" in z and z["callee"]["name"] in ("begin", "end", "rbegin")
-                          and z.get("member_call") and match.this_field(kids(z)[0]) == "list_"]
-                    detail = lb[0]["callee"]["name"] if lb else "?"
-                out.append(("map." + name, detail))
+        handle(e)
         u = match.unop(e, ("--", "++"))
         if u and ref_of(u[1]) is not None:
             out.append(("iter" + u[0], ref_of(u[1])))
@@ -71,6 +118,8 @@ def lru_events(fn, lf):
     stop = lf["stop"]
     if stop[0] == "throw":
         out.append(("throw", None))
+    if stop[0] == "return" and stop[1] and stop[1][0] is not None:
+        handle(stop[1][0])
     return out
 
 
